@@ -286,8 +286,13 @@ class SimBackendNE(SimBackend):
     not_startswith_expression: ClassVar[str | None] = "{field} not_startswith {value}"
     not_endswith_expression: ClassVar[str | None] = "{field} not_endswith {value}"
     not_contains_expression: ClassVar[str | None] = "{field} not_contains {value}"
-    not_re_expression: ClassVar[str | None] = "{field}!~/{regex}/{flag_i}{flag_m}{flag_s}"
+    not_re_expression: ClassVar[str | None] = "{field}!~/{regex}/"
+    re_expression: ClassVar[str | None] = "{field}=~/{regex}/"
+    re_flag_prefix: bool = True  # flags rendered as (?ims) prefix built from the flag set
     not_cidr_expression: ClassVar[str | None] = "not_cidr({field}, {value})"
+    re_flag_prefix: bool = True
+    re_expression: ClassVar[str | None] = "{field}=~/{regex}/"
+    not_re_expression: ClassVar[str | None] = "{field}!~/{regex}/"
     backend_processing_pipeline: ClassVar[ProcessingPipeline] = ProcessingPipeline()
     output_format_processing_pipeline: ClassVar[dict[str, ProcessingPipeline]] = defaultdict(
         ProcessingPipeline
